@@ -211,6 +211,8 @@ def judge_point(col: Collector | None, c: dict, Message: Any, Packet: Any, T0: A
 NZ = 6
 TRVS = [f"04:0560{50 + i}" for i in range(NZ)]
 BDR, DHWS, HWV = "13:237335", "07:045960", "13:081807"
+CO2, HUM = "37:154011", "32:155617"  # HVAC sensors (classes given by the known list, as a user would)
+KNOWN = {CO2: {"class": "CO2"}, HUM: {"class": "HUM"}}
 
 
 def schema() -> dict:
@@ -237,7 +239,7 @@ def writer_strategy() -> Any:
     def w(draw: Any) -> dict:
         kind = draw(st.sampled_from((
             "z30C9-arr", "z30C9-arr", "z30C9-rp", "z2309-arr", "z2309-rp", "z2349-rp", "z2349-i", "z000A-arr", "z000A-rp", "z12B0-rp", "z0004-rp",
-            "d1260-rp", "d10A0-rp", "d1F41-rp", "s2E04", "s3150", "t30C9", "t2309", "t3150", "t12B0", "b0008", "h1260", "noise", "noise")))
+            "d1260-rp", "d10A0-rp", "d1F41-rp", "s2E04", "s3150", "t30C9", "t2309", "t3150", "t12B0", "b0008", "h1260", "v1298", "v12A0", "noise", "noise")))
         eff: list[list] = []  # [entity, attribute, value]
         if kind in ("z30C9-arr", "z2309-arr"):
             code = kind[1:5]
@@ -339,6 +341,16 @@ def writer_strategy() -> Any:
             fr = f" I --- {DHWS} --:------ {DHWS} 1260 003 00{th(v)}"
             eff = [[f"dev:{DHWS}", "temperature", v]]
             L = _HOUR
+        elif kind == "v1298":
+            ppm = draw(st.integers(300, 5000))
+            fr = f" I --- {CO2} --:------ {CO2} 1298 003 00{ppm:04X}"
+            eff = [[f"dev:{CO2}", "co2_level", ppm]]
+            L = _HOUR
+        elif kind == "v12A0":
+            hh = draw(st.integers(1, 99))
+            fr = f" I --- {HUM} --:------ {HUM} 12A0 002 00{hh:02X}"
+            eff = [[f"dev:{HUM}", "indoor_humidity", hh / 100]]
+            L = _HOUR
         else:  # unrelated traffic: other system, other codes, requests
             fr = draw(st.sampled_from((
                 f" I --- {CTL} --:------ {CTL} 1F09 003 FF073F", f"RQ --- {GWY} {CTL} --:------ 30C9 001 01",
@@ -367,7 +379,8 @@ ATTRS = {
     "dhw": ("temperature", "setpoint", "mode"),
     "tcs": ("system_mode", "heat_demand"),
 }
-DEV_ATTRS = {**{t: ("temperature", "setpoint", "heat_demand", "window_open") for t in TRVS}, BDR: ("relay_demand",), DHWS: ("temperature",)}
+DEV_ATTRS = {**{t: ("temperature", "setpoint", "heat_demand", "window_open") for t in TRVS}, BDR: ("relay_demand",), DHWS: ("temperature",),
+             CO2: ("co2_level",), HUM: ("indoor_humidity",)}
 
 
 def _read_all(gwy: Any) -> dict:
@@ -404,7 +417,7 @@ async def _run_hist(loop: Any, case: dict) -> dict:
     eth = stack.Ether(loop)
     vclock.STATE.frozen = vclock.EPOCH
     gwy, port = await stack.make_gateway(eth, gwy_id=GWY, config={"disable_discovery": True, "enable_eavesdrop": bool(case.get("eavesdrop"))},
-                                         schema=schema())
+                                         schema=dict(schema(), orphans_hvac=[CO2, HUM]), known_list={k: dict(v) for k, v in KNOWN.items()})
     now = 0.0
     reads: list[dict] = []
     try:
